@@ -289,6 +289,9 @@ def space(tier):
             if rng.random() < 0.15:
                 # a copy landing exactly when the listening window ends, or one tick to either side
                 h["copies"].append([5.0 + rng.choice([-1, 0, 0, 1]) / (1 << 20), 6445])
+            elif rng.random() < 0.08:
+                # the host's one and only reply is handled in the very loop iteration in which the window ends
+                h["copies"] = [[5.0 + rng.choice([-1, 0, 0, 0]) / (1 << 20), rng.choice([6445, 20086])]]
         p = {"hosts": hosts, "twice": rng.random() < 0.3}
         for h in hosts:
             if h["cls"] == "good" and rng.random() < 0.2:
